@@ -7,7 +7,13 @@ use rand::Rng;
 use serde_json::{Value, json};
 use std::time::Duration;
 
-const WAIT: Duration = Duration::from_secs(10);
+/// how long an exchange waits for frames that should come; cut to half a second once several exchanges of a run have waited in vain
+/// (a tree on which replies go missing is reported all the same, and the run stays short)
+static WAIT_MS: std::sync::atomic::AtomicU64 = std::sync::atomic::AtomicU64::new(10_000);
+static WAITED_IN_VAIN: std::sync::atomic::AtomicU64 = std::sync::atomic::AtomicU64::new(0);
+fn wait() -> Duration {
+	Duration::from_millis(WAIT_MS.load(std::sync::atomic::Ordering::Relaxed))
+}
 
 /// compare one observed reply (None = no reply) with the spec's expectation; returns what is wrong
 fn compare(exp: &Value, got: Option<&Value>, own_id: &Option<Value>, params: &Option<Value>) -> Option<String> {
@@ -86,10 +92,26 @@ pub fn replay(cases: &[Value], out: &mut Out) {
 				let rig = Rig::new(RigCfg::default());
 				// the same server with a message buffer of one: for WebSocket exchanges under back-pressure
 				let bp = Rig::new(RigCfg { buf_cap: 1, ..Default::default() });
+				// the same server with a response limit of 4 KiB: for exchanges that follow a call whose result did not fit
+				let small = Rig::new(RigCfg { max_resp: 4096, ..Default::default() });
 				let mut verdicts = vec![];
 				for (i, c) in chunk {
 					for k in 0..ks {
-						verdicts.push((i, k, one_case(&rig, &bp, i, k, &c).await));
+						// one exchange in ten comes right after a call that was answered "response too big" (-32008): whatever the
+						// server did about that answer, this message is treated like any other
+						let after_big = (i + k) % 10 == 3;
+						// (a case that does not come back - a server task that died holding something - is an observation, not a hang)
+						let r = if after_big { &small } else { &rig };
+						let v = match tokio::time::timeout(std::time::Duration::from_secs(40), one_case(r, &bp, i, k, &c, after_big)).await {
+							Ok(v) => v,
+							Err(_) => (vec![("exchange-stalled:no-verdict-within-40s".to_string(), json!({"case": c, "after_big": after_big}))], Value::Null),
+						};
+						if v.0.iter().any(|(key, _)| key.contains("not-serving") || key.contains("stalled") || key.contains("no-eof") || key.contains("no-reply")) {
+							if WAITED_IN_VAIN.fetch_add(1, std::sync::atomic::Ordering::Relaxed) >= 6 {
+								WAIT_MS.store(500, std::sync::atomic::Ordering::Relaxed);
+							}
+						}
+						verdicts.push((i, k, v));
 					}
 				}
 				verdicts
@@ -103,7 +125,8 @@ pub fn replay(cases: &[Value], out: &mut Out) {
 	});
 }
 
-async fn one_case(rig: &Rig, bp: &Rig, i: usize, k: usize, c: &Value) -> (Vec<(String, Value)>, Value) {
+async fn one_case(rig: &Rig, bp: &Rig, i: usize, k: usize, c: &Value, after_big: bool) -> (Vec<(String, Value)>, Value) {
+	const BIG_CALL: &str = r#"{"jsonrpc":"2.0","id":"press-big","method":"big","params":[5000,"ascii"]}"#;
 	let mut rng = rng_for(i, k);
 	let case = &c["case"];
 	let kind = c["kind"].as_str().unwrap();
@@ -120,6 +143,9 @@ async fn one_case(rig: &Rig, bp: &Rig, i: usize, k: usize, c: &Value) -> (Vec<(S
 	let mut problems: Vec<(String, Value)> = vec![];
 
 	// ---- HTTP
+	if after_big {
+		let _ = rig.http_json(BIG_CALL.as_bytes()).await;
+	}
 	rig.take_log();
 	let hr = rig.http_json(&bytes).await;
 	let hlog = rig.take_log();
@@ -175,6 +201,10 @@ async fn one_case(rig: &Rig, bp: &Rig, i: usize, k: usize, c: &Value) -> (Vec<(S
 				break;
 			}
 		};
+		if after_big && !pressed {
+			ws.send_text(BIG_CALL).await;
+			tokio::time::sleep(std::time::Duration::from_millis(2)).await;
+		}
 		if pressed {
 			for j in 0..3 {
 				ws.send_text(&format!(r#"{{"jsonrpc":"2.0","id":"press-{j}","method":"big","params":[150000,"ascii"]}}"#)).await;
@@ -185,8 +215,8 @@ async fn one_case(rig: &Rig, bp: &Rig, i: usize, k: usize, c: &Value) -> (Vec<(S
 		let probe_id = format!("probe-{i}-{k}");
 		let probe = format!(r#"{{"jsonrpc":"2.0","id":"{probe_id}","method":"echo","params":["probe"]}}"#);
 		let sent2 = ws.send_text(&probe).await;
-		let (mut frames, hit) = ws.recv_until(WAIT, |v| v["id"] == json!(probe_id)).await;
-		let (rest, clean) = ws.stop_and_drain(WAIT).await;
+		let (mut frames, hit) = ws.recv_until(wait(), |v| v["id"] == json!(probe_id)).await;
+		let (rest, clean) = ws.stop_and_drain(wait()).await;
 		frames.extend(rest);
 		let wlog: Vec<Value> = rig.take_log().into_iter().filter(|e| e["params"] != json!(["probe"]) && e["h"] != "big").collect();
 		frames.retain(|f| serde_json::from_str::<Value>(f).map(|v| !v["id"].as_str().map(|s| s.starts_with("press-")).unwrap_or(false)).unwrap_or(true));
